@@ -287,6 +287,8 @@ func showAct(a *action) string {
 		s = "K"
 	case actInit:
 		s = "I"
+	case actList:
+		s = "L"
 	}
 	if a.failed {
 		s = "!" + s
@@ -306,7 +308,7 @@ func canonTrace(acts []*action) string {
 	}
 	for _, a := range acts {
 		s := showAct(a)
-		if strings.HasPrefix(s, "D") {
+		if strings.HasPrefix(s, "D") || strings.HasPrefix(s, "!D") {
 			run = append(run, s)
 		} else {
 			flush()
@@ -338,6 +340,9 @@ func (r *walRun) open() string {
 		}
 		w, err = wal.Open(r.dir, wal.WithSegmentSize(r.segSize), wal.WithMetricsCollector(r.t), wal.WithLogger(hclog.NewNullLogger()), metaOpt, codecOpt)
 	} else {
+		if n := r.cfs.adoptPending(); n > 0 {
+			r.c.stats["open_adopts_unsynced_batch"] += n
+		}
 		sf := segment.NewFiler("d", r.cfs)
 		ms := &cmeta{fs: r.cfs}
 		if r.codecID != 1 {
@@ -533,7 +538,7 @@ func (r *walRun) checkDir() {
 	for _, si := range r.cfs.meta.Segments {
 		want[segment.FileName(si)] = true
 	}
-	names, _ := r.cfs.ListDir("d")
+	names := r.cfs.listNames()
 	for _, n := range names {
 		if !want[n] {
 			r.c.witness("C13", "unlisted-file-after-open", "file "+n+" is not listed in the metadata but remains after Open", r.line)
@@ -641,6 +646,10 @@ func (r *walRun) run() string {
 				r.faulted = r.cfs != nil && r.cfs.faultIn >= 0
 			} else if r.afterCrash && !armed {
 				r.c.witness("C03", "open-fails-after-crash", "Open returns an error on a directory state left by a crash", r.line)
+			}
+			if res != "ok" && !armed && r.everFaulted && !reserved && (r.dirCodec == 0 || r.dirCodec == r.codecID) {
+				// C10: after I/O errors an Open into which no fault is injected succeeds
+				r.c.witness("C10", "open-fails-after-io-error", "Open, with no fault injected into it, returns an error on the directory earlier I/O errors left", r.line)
 			}
 		case "S":
 			k := int(parseU(ops[i+1]))
@@ -938,7 +947,7 @@ func (r *walRun) run() string {
 		case "Y":
 			var names []string
 			if r.cfs != nil {
-				names, _ = r.cfs.ListDir("d")
+				names = r.cfs.listNames()
 			} else {
 				ents, _ := os.ReadDir(r.dir)
 				for _, e := range ents {
@@ -973,6 +982,28 @@ func (r *walRun) run() string {
 				r.cfs.faultIn = k
 				r.faulted = true
 				r.everFaulted = true
+			}
+			record = false
+		case "?":
+			// fault modes, in force while a counted fault is armed: 1 every deletion
+			// fails, 2 the next directory listing fails, 4 a creation hit by the counted
+			// fault leaves the empty file behind
+			fl := parseU(ops[i+1])
+			i++
+			if r.cfs != nil {
+				r.cfs.failDeletes = fl&1 != 0
+				r.cfs.failList = fl&2 != 0
+				r.cfs.createLeaves = fl&4 != 0
+				if fl != 0 {
+					r.faulted = true
+					r.everFaulted = true
+				}
+			}
+			record = false
+		case "~":
+			if r.cfs != nil {
+				r.cfs.faultIn = -1
+				r.cfs.failDeletes, r.cfs.failList, r.cfs.createLeaves = false, false, false
 			}
 			record = false
 		case "Q":
@@ -1094,6 +1125,11 @@ func (r *walRun) run() string {
 	if r.cfs != nil {
 		for k, v := range r.cfs.faultsFired {
 			r.c.stats["fault_fired_on_"+k] += v
+		}
+	}
+	if r.cfs != nil {
+		for k, v := range r.cfs.events {
+			r.c.stats[k] += v
 		}
 	}
 	if r.cfs != nil && r.cfs.dupID != "" {
